@@ -18,4 +18,10 @@ Deliver, inside /tmp/seed-{pid}/seed_out/ :
 3. `meta.json`: {{"property": "{pid}", "summary": one sentence, "needs": what specific situation is needed for the breakage to manifest, "files_changed": [...], "commands": the commands you ran to show (a) the existing tests of the affected crate(s) pass with the change (`cargo test -p <crate> --offline`, excluding your demo), (b) the demo fails with the change, (c) the demo passes without the change (git stash the source change)}}.
 
 Verify all three things yourself by actually running the commands (the first build takes a few minutes). When done, leave the worktree with your change APPLIED and the demo file present, and reply with a short report: what the change is, why it breaks the property, what is needed to see it, and the exact commands/results."""
-print(prompt(sys.argv[1]))
+text = prompt(sys.argv[1])
+if len(sys.argv) > 2:
+    text += ("\n\nIdeas that were already used by others and that you must NOT repeat (find a different mechanism, "
+             "preferably in a different function or code site): " + sys.argv[2])
+    text += ("\nDo not use `git stash` (the stash is shared between worktrees); to toggle your change use "
+             "`git diff > seed_out/patch.diff`, `git apply -R seed_out/patch.diff` and `git apply seed_out/patch.diff`.")
+print(text)
